@@ -395,8 +395,38 @@ func ruleDecodePriority(c *eng.Ctx) {
 
 func ruleUTF8Sink(c *eng.Ctx) {
 	const R = "R7.4-UTF8-SINK"
-	c.Rule(R, "in the text-decoding functions a []byte -> string conversion of shown bytes is only used as input of a validating/decoding function (strings.ToValidUTF8, a CMap parser), never returned or stored as text directly", 3, 0)
-	for _, fnName := range []string{"font.(*Font).DecodeString", "font.(*CMap).LookupString", "text.(*Extractor).showText"} {
+	c.Rule(R, "in the text-decoding functions a []byte -> string conversion of shown bytes is only used as input of a validating/decoding function (strings.ToValidUTF8, a CMap parser), never returned or stored as text directly, and no byte of it is written into the text being built unless proven ASCII", 8, 0)
+	// the three decoders confirmed by reading, plus every other function of package font that returns text
+	// decoded from a byte-slice parameter (sibling decoders, encodings)
+	names := []string{"font.(*Font).DecodeString", "font.(*CMap).LookupString", "text.(*Extractor).showText"}
+	isNamed := map[string]bool{}
+	for _, nm := range names {
+		isNamed[nm] = true
+	}
+	for _, f := range c.P.ModuleFuncs() {
+		if f.Pkg == nil || eng.ShortPath(f.Pkg.Pkg.Path()) != "font" || f.Parent() != nil || isNamed[eng.FuncName(f)] {
+			continue
+		}
+		res := f.Signature.Results()
+		if res.Len() == 0 {
+			continue
+		}
+		if bt, ok := res.At(0).Type().Underlying().(*types.Basic); !ok || bt.Kind() != types.String {
+			continue
+		}
+		hasBytes := false
+		for _, p := range f.Params {
+			if st, ok := p.Type().Underlying().(*types.Slice); ok {
+				if b, ok := st.Elem().Underlying().(*types.Basic); ok && b.Kind() == types.Uint8 {
+					hasBytes = true
+				}
+			}
+		}
+		if hasBytes {
+			names = append(names, eng.FuncName(f))
+		}
+	}
+	for _, fnName := range names {
 		fn := c.P.Func(fnName)
 		if fn == nil {
 			c.Undec(R, fnName, token.NoPos, "anchor not found")
@@ -404,6 +434,26 @@ func ruleUTF8Sink(c *eng.Ctx) {
 		}
 		var bad []string
 		n := 0
+		// a raw byte of the shown string written into the text that is being built
+		for _, ci := range eng.Calls(fn, false, func(nm string, _ ssa.CallInstruction) bool {
+			return nm == "strings.(*Builder).WriteByte" || nm == "bytes.(*Buffer).WriteByte"
+		}) {
+			arg := ci.Common().Args[1]
+			if k, isC := eng.ConstInt(arg); isC && k >= 0 && k < 0x80 {
+				continue
+			}
+			ascii := eng.GuardedBy(fn, ci.Block(), func(f eng.Fact) bool {
+				op, x, y, ok := f.Cmp()
+				if !ok || !eng.SameValue(x, arg) {
+					return false
+				}
+				k, isC := eng.ConstInt(y)
+				return isC && ((op == token.LSS && k <= 0x80) || (op == token.LEQ && k < 0x80))
+			})
+			if !ascii {
+				bad = append(bad, "a byte not proven < 0x80 is written into the text at "+c.P.Pos(ci.Pos()))
+			}
+		}
 		eng.Instrs(fn, false, func(in ssa.Instruction) {
 			cv, ok := in.(*ssa.Convert)
 			if !ok {
@@ -437,7 +487,7 @@ func ruleUTF8Sink(c *eng.Ctx) {
 			}
 		})
 		if len(bad) > 0 {
-			c.Viol(R, fnName, fn.Pos(), strings.Join(bad, "; ")+": bytes >= 0x80 become invalid UTF-8 in the returned text")
+			c.Viol(R, fnName, fn.Pos(), strings.Join(bad, "; ")+": the byte-to-text mapping (encoding table, CMap) is bypassed and bytes >= 0x80 become invalid UTF-8 in the returned text")
 		} else {
 			c.Ok(R, fnName, fn.Pos(), fmt.Sprintf("%d raw conversions, all validated", n))
 		}
